@@ -1,4 +1,5 @@
 import Sop.Model.Cache
+import Sop.Lemmas.StoreInfoCache
 /-! # C20 — caches never serve stale data
 
 `Sop.Model.Cache`: two processes (own L1 node MRU + L1 Handles) over one shared L2 and one folder; `get`
@@ -15,7 +16,26 @@ committed write and commits; every (lone) write commits (`specOuts`).
   may be evicted or flushed at any time) all answers equal the specification: single-process histories are fresh.
 * `C20_counterexample`: the two-process history of DESIGN.md §6 — the process that wrote first keeps serving its
   own old version through the `phaseDone = 0` fast path after the other process committed: NoCheck reads it with
-  a clean commit, validated readers and writers fail, until its L1 Handles entry goes away.  -/
+  a clean commit, validated readers and writers fail, until its L1 Handles entry goes away.
+
+Store-info cache (`Sop.Model.StoreInfoCache`: `StoreRepository.Update` over a list of stores with its `undo`,
+faults and interference per store and per pass as inputs) — section "store-info cache" at the end:
+* `C20_storeinfo_coherent`: for EVERY list of stores, every failure position and every fault that left nothing
+  behind (`Flt.clean`: reads failing, writes failing before taking effect, the store removed concurrently, the
+  entry evicted — in the forward pass and in `undo`), after `Update` returns (ok, `(nil, nil)` or error) every
+  store's cache entry is absent or equal to its `storeinfo.txt`; `C20_storeinfo_read_fresh`: so every cache-first
+  reader is answered with what the file holds.
+* `C20_storeinfo_error_restores`: distinct names, forward faults of the before-effect kind, `undo` not itself
+  disturbed: when `Update` does not return its stores, every file except that of a concurrently removed store holds
+  what it held before the call (and, by the first theorem, so does every cache entry that is present).
+* `C20_storeinfo_ok_counts`: an undisturbed `Update` of existing distinct stores returns ok, every file's count moves
+  by exactly its delta from the FILE's count, the cache entry is that record, no other store is touched.
+* what does NOT hold on the unchanged code, each for every cell / record / delta:
+  `C20_storeinfo_setErr_stale` (a tolerated `SetStruct` failure after the file was written leaves the OLD entry in
+  the cache: the iteration completes, readers get the old count), `C20_storeinfo_failAfter_stale` (a full write that
+  took effect and then reported failure: file new, cache old, and `undo` does not cover the failing store),
+  `C20_storeinfo_undo_fault_not_restored` (a failing `undo` write leaves file and cache at the NEW count although
+  `Update` returned an error: coherent, not restored).  -/
 namespace Sop.C20
 open Sop.Cache
 
@@ -498,5 +518,125 @@ def sampleSingle : List Op :=
 example : onlyP0Writes sampleSingle = true ∧
     specOuts 100 sampleSingle = [.write true, .read (some 101) true, .read (some 101) true, .done, .write true, .done,
       .read (some 102) true, .done, .read (some 102) true, .write true, .read (some 103) true] := by decide
+
+/-! ## store-info cache -/
+section StoreInfo
+open Sop.SICache
+
+/-- After `Update` — whatever it returned — every store's cache entry is absent or equals its file, for every list
+of stores and every combination of before-effect faults / concurrent removals / evictions in both passes. -/
+theorem C20_storeinfo_coherent (M : String → Nat) (s : SICache.St) (l : List Upd) (h : SICache.Inv M s)
+    (hl : ∀ u ∈ l, u.info = M u.name ∧ u.fwd.clean = true ∧ u.und.clean = true) :
+    SICache.Inv M (update s l).1 :=
+  loop_inv (sortByName l) s [] h (by simp) (fun u hu => hl u (mem_sortByName.1 hu))
+
+/-- … hence a cache-first reader (`Get` / `GetWithTTL` / `OpenBtree`, any process sharing the L2 cache) is answered
+with exactly what `storeinfo.txt` holds. -/
+theorem C20_storeinfo_read_fresh (M : String → Nat) (s : SICache.St) (l : List Upd) (h : SICache.Inv M s)
+    (hl : ∀ u ∈ l, u.info = M u.name ∧ u.fwd.clean = true ∧ u.und.clean = true) (n : String) :
+    ((update s l).1.read n).2 = ((update s l).1 n).disk := by
+  have hi := C20_storeinfo_coherent M s l h hl n
+  generalize (update s l).1 = t at hi ⊢
+  obtain ⟨hc, _⟩ := hi
+  unfold SICache.St.read Cell.get
+  cases hcache : (t n).cache with
+  | some r =>
+    rcases hc with hc | hc
+    · rw [hcache] at hc; cases hc
+    · simp only [← hc, hcache]
+  | none =>
+    cases hd : (t n).disk with
+    | none => simp
+    | some d => simp
+
+/-- When `Update` fails (error or `(nil, nil)`), every file — except that of a store removed concurrently — holds
+what it held before the call. -/
+theorem C20_storeinfo_error_restores (M : String → Nat) (s : SICache.St) (l : List Upd) (h : SICache.Inv M s)
+    (hnd : (l.map (·.name)).Nodup)
+    (hl : ∀ u ∈ l, u.info = M u.name ∧ u.fwd.clean = true ∧ u.und.quiet = true)
+    (hne : (update s l).2 ≠ .ok) (n : String) (hn : ∀ u ∈ l, u.fwd.gone = true → u.name ≠ n) :
+    ((update s l).1 n).disk = (s n).disk :=
+  loop_restore (M := M) (fun n => (s n).disk) (sortByName l) s [] h
+    (by simpa using nodup_sortByName hnd) (by simp) (by simp)
+    (fun u hu => hl u (mem_sortByName.1 hu)) hne n (fun u hu => hn u (mem_sortByName.1 hu))
+
+/-- The success half: an undisturbed `Update` of existing, distinct stores returns ok, moves every file's count by
+its delta (the base is the FILE's count: the coherent cache cannot have offered another one), stamps the new
+timestamp, refreshes the cache entry with exactly that record and touches no other store. -/
+theorem C20_storeinfo_ok_counts (M : String → Nat) (s : SICache.St) (l : List Upd) (h : SICache.Inv M s)
+    (hnd : (l.map (·.name)).Nodup)
+    (hl : ∀ u ∈ l, u.info = M u.name ∧ u.fwd.quiet = true ∧ ∃ d, (s u.name).disk = some d) :
+    (update s l).2 = .ok ∧
+    (∀ u ∈ l, ∀ d, (s u.name).disk = some d →
+      (update s l).1 u.name = ⟨some ⟨d.count + u.delta, u.ts, M u.name⟩, some ⟨d.count + u.delta, u.ts, M u.name⟩⟩) ∧
+    (∀ n, n ∉ l.map (·.name) → (update s l).1 n = s n) := by
+  have := loop_ok (M := M) (sortByName l) s [] h (nodup_sortByName hnd) (fun u hu => hl u (mem_sortByName.1 hu))
+  refine ⟨this.1, fun u hu => this.2.1 u (mem_sortByName.2 hu), fun n hn => this.2.2 n ?_⟩
+  intro hm
+  exact hn (((sortByName_perm l).map _).mem_iff.1 hm)
+
+/-- non-vacuity of the theorems: a coherent state with three stores (one cached, one not), an update of all
+three given in reverse name order in which store "b" is removed concurrently: `Update` returns `(nil, nil)`, "a" is
+undone on disk and in the cache. -/
+def siState : SICache.St := fun n =>
+  if n = "a" then ⟨some ⟨5, 1, 7⟩, some ⟨5, 1, 7⟩⟩ else if n = "b" then ⟨some ⟨3, 1, 8⟩, none⟩
+  else if n = "c" then ⟨some ⟨0, 1, 9⟩, some ⟨0, 1, 9⟩⟩ else {}
+def siInfo : String → Nat := fun n => if n = "a" then 7 else if n = "b" then 8 else 9
+def siList : List Upd :=
+  [{ name := "c", delta := 4, ts := 2, info := 9 }, { name := "b", delta := 2, ts := 2, info := 8, fwd := { gone := true } },
+   { name := "a", delta := -1, ts := 2, info := 7, und := { evict := true, fastWrite := .before } }]
+
+theorem siState_inv : SICache.Inv siInfo siState := by
+  intro n
+  unfold siState siInfo Cell.Inv Cell.Coh
+  split
+  · simp
+  · split
+    · simp
+    · split <;> simp
+
+example : (∀ u ∈ siList, u.info = siInfo u.name ∧ u.fwd.clean = true ∧ u.und.quiet = true) ∧
+    (siList.map (·.name)).Nodup ∧ (update siState siList).2 = .okNil ∧
+    (update siState siList).1 "a" = ⟨some ⟨5, 1, 7⟩, some ⟨5, 1, 7⟩⟩ ∧
+    (update siState siList).1 "b" = {} ∧ (update siState siList).1 "c" = siState "c" := by decide
+
+/-- … and a successful one (the hypotheses of `C20_storeinfo_ok_counts` hold for it): counts move by the deltas, the
+cache follows. -/
+example : ∀ u ∈ ([{ name := "c", delta := 4, ts := 2, info := 9 }, { name := "a", delta := -1, ts := 3, info := 7 }] : List Upd),
+    u.info = siInfo u.name ∧ u.fwd.quiet = true ∧ (siState u.name).disk ≠ none := by decide
+
+example : (update siState [{ name := "c", delta := 4, ts := 2, info := 9 }, { name := "a", delta := -1, ts := 3, info := 7 }]).2 = .ok ∧
+    (update siState [{ name := "c", delta := 4, ts := 2, info := 9 }, { name := "a", delta := -1, ts := 3, info := 7 }]).1 "a"
+      = ⟨some ⟨4, 3, 7⟩, some ⟨4, 3, 7⟩⟩ := by decide
+
+/-! ### what does not hold on the unchanged code -/
+
+/-- A tolerated `SetStruct` failure: the iteration completes, the file holds the new count, the cache keeps the OLD
+record — every cache-first reader is served the old count, and the next `Update` takes its base from it. -/
+theorem C20_storeinfo_setErr_stale (r : Rec) (u : Upd) (hf : u.fwd = { setErr := true }) (hs : u.needsSave = false) :
+    ((⟨some r, some r⟩ : Cell).fwd u).2 = .done r ∧
+    ((⟨some r, some r⟩ : Cell).fwd u).1 = ⟨some ⟨r.count + u.delta, u.ts, r.info⟩, some r⟩ := by
+  simp [Cell.fwd, Cell.env, Cell.get, Cell.store, Cell.setCache, hf, hs]
+
+/-- A full write that took effect and then reported failure: `Update` returns the error, `undo` does not cover this
+store, the file holds the new record and the cache the old one. -/
+theorem C20_storeinfo_failAfter_stale (r : Rec) (u : Upd) (hf : u.fwd = { fastRead := true, fullWrite := .after }) :
+    ((⟨some r, some r⟩ : Cell).fwd u).2 = .error ∧
+    ((⟨some r, some r⟩ : Cell).fwd u).1 = ⟨some ⟨r.count + u.delta, u.ts, u.info⟩, some r⟩ := by
+  simp [Cell.fwd, Cell.env, Cell.get, Cell.store, hf]
+
+/-- `undo` whose own writes fail: file and cache both stay at the new count (coherent) although `Update` reports
+failure. -/
+theorem C20_storeinfo_undo_fault_not_restored (r o : Rec) (u : Upd)
+    (hf : u.und = { fastRead := true, fullWrite := .before }) :
+    (⟨some r, some r⟩ : Cell).undo u o = ⟨some r, some r⟩ := by
+  simp [Cell.undo, Cell.env, Cell.get, Cell.store, hf]
+
+/-- the three excluded fault kinds are exactly those `Flt.clean` / `Flt.quiet` rule out -/
+example : ({ setErr := true } : Flt).clean = false ∧ ({ fastRead := true, fullWrite := .after } : Flt).clean = false ∧
+    ({ fastRead := true, fullWrite := .before } : Flt).clean = true ∧
+    ({ fastRead := true, fullWrite := .before } : Flt).quiet = false := by decide
+
+end StoreInfo
 
 end Sop.C20
